@@ -34,7 +34,7 @@ func oldBuild() *hlib.Build {
 
 func containers() (target, source *tlc.Container) {
 	target = &tlc.Container{Size: 8, Files: []*tlc.File{{Path: "a", Mode: 0o644, Size: 5}, {Path: "b", Mode: 0o644, Size: 3, Offset: 5}}}
-	source = &tlc.Container{Size: 9, Files: []*tlc.File{{Path: "a", Mode: 0o644, Size: 6}, {Path: "c", Mode: 0o644, Size: 3, Offset: 6}}}
+	source = &tlc.Container{Size: 12, Files: []*tlc.File{{Path: "a", Mode: 0o644, Size: 6}, {Path: "c", Mode: 0o644, Size: 3, Offset: 6}, {Path: "d", Mode: 0o644, Size: 3, Offset: 9}}}
 	return
 }
 
@@ -63,7 +63,8 @@ func (m *mut) boolean(valid bool, label string) bool {
 // buildPatch writes a valid patch (B = pwr.BlockSize = 2 in the scaled build) in which
 // the integer/enum/bool fields of message number `mutIdx` are symbolic. `structure`
 // alters the message sequence: 0 none, 1 drop the first end marker, 2 duplicate it,
-// 3 swap the kinds of the two series headers, 4 drop the bsdiff EOF control.
+// 3 swap the kinds of the two series headers, 4 drop the bsdiff EOF control, 5 an op after the full-file op of the
+// third file, 6 no end marker after it.
 func buildPatch(mutIdx, structure int) []byte {
 	target, source := containers()
 	var buf bytes.Buffer
@@ -113,6 +114,16 @@ func buildPatch(mutIdx, structure int) []byte {
 		m.cur++
 	}
 	w(&pwr.SyncOp{Type: pwr.SyncOp_Type(m.i32(int32(pwr.SyncOp_HEY_YOU_DID_IT), "end1.type"))}) // 9
+	// file 2: a whole-file copy of old file 1 (one block range spanning it: the patcher transposes instead of copying ops)
+	w(&pwr.SyncHeader{Type: pwr.SyncHeader_Type(m.i32(int32(pwr.SyncHeader_RSYNC), "sh2.type")), FileIndex: m.i64(2, "sh2.fileIndex")})                                                  // 10
+	w(&pwr.SyncOp{Type: pwr.SyncOp_Type(m.i32(int32(pwr.SyncOp_BLOCK_RANGE), "full.type")), FileIndex: m.i64(1, "full.fileIndex"), BlockIndex: m.i64(0, "full.blockIndex"), BlockSpan: m.i64(2, "full.blockSpan")}) // 11
+	if structure == 5 {
+		// an op after the full-file op
+		hlib.Must(wc.WriteMessage(&pwr.SyncOp{Type: pwr.SyncOp_DATA, Data: []byte{1}}), "trailing op")
+	}
+	if structure != 6 {
+		w(&pwr.SyncOp{Type: pwr.SyncOp_Type(m.i32(int32(pwr.SyncOp_HEY_YOU_DID_IT), "end2.type"))}) // 12
+	}
 	return buf.Bytes()
 }
 
@@ -143,7 +154,7 @@ func setup() string {
 	hlib.SetCopyBuf()
 	root := rt.TempDir()
 	oldBuild().Write(root + "/old")
-	(&hlib.Build{Files: []hlib.File{{Path: "a", Data: []byte{1, 2, 3, 4, 7, 7}}, {Path: "c", Data: []byte{9, 8, 5}}}}).Write(root + "/new")
+	(&hlib.Build{Files: []hlib.File{{Path: "a", Data: []byte{1, 2, 3, 4, 7, 7}}, {Path: "c", Data: []byte{9, 8, 5}}, {Path: "d", Data: []byte{9, 8, 7}}}}).Write(root + "/new")
 	return root
 }
 
@@ -161,8 +172,8 @@ func H_truncate() {
 	patch := buildPatch(-1, 0)
 	cut := rt.Param("cut")
 	if cut > len(patch) {
-		rt.Reach("end")
-		return
+		// (the stream is shorter natively than under the codec model: past its end the whole stream is consumed)
+		cut = len(patch)
 	}
 	consume(patch[:cut], root)
 	rt.Reach("end")
